@@ -10,6 +10,7 @@ TEXT = ("The gate's truth table (major 0: same major.minor; major >= 1: same maj
 TECHNIQUE = "Lean 4 theorems over the version-gate model (case analysis, omega) + model-vs-implementation correspondence on a (B,V) grid"
 LEAN_PROPS = ["C18"]
 TRUSTED = ["golang.org/x/mod/semver is modelled (Model/Semver.parse), tied by the correspondence run"]
+DETERMINISTIC = True   # no random generation: further thorough rounds would repeat the same cases
 ASSUMPTIONS = []
 
 
